@@ -93,7 +93,7 @@ fn main() {
 
     // 1. generated programs × layout variants, cut-off sweeps, cursor traces
     let thorough = args.thorough();
-    let n_prog = if thorough { 1000 } else { 220 };
+    let n_prog = if thorough { 800 } else { 220 };
     let mut rng = Rng::new(args.seed);
     for i in 0..n_prog {
         let mut prng = rng.fork();
@@ -104,7 +104,7 @@ fn main() {
     cx.arm_indent_stream(&mut rng, if thorough { 3000 } else { 400 });
 
     // 1c. binary-operator chains broken over 2..5 lines in every bracketed context and outside brackets
-    cx.binop_stream(&mut rng, if thorough { 12000 } else { 1500 }, false);
+    cx.binop_stream(&mut rng, if thorough { 8000 } else { 1500 }, false);
 
     // 2. repository sources: cursor traces, trivia invariance, cut-off sweep
     cx.repo_sources(&mut rng, thorough);
